@@ -179,6 +179,25 @@ def chain_scenario(backend, root_dir):
             got = ran(fn, x)
             if got != want:
                 fails.append(dict(clause="own-context-replaces-entirely", call=text, executed=got, expected=want))
+        # ... also when the function object the new context is attached to has been *called* under its own context before,
+        # and when the new dictionary differs from the attached one only in the type of a value (1 / 1.0 / True)
+        used = f2.with_context_args({"k": 1})
+        # (each function object is derived only when its turn comes: after `used` has been called)
+        seq = [("used = f2.with_context_args({'k': 1}); used(11)", lambda: used, [(1, 1), (2, 1)]),
+               ("used.with_context_args({'k': 2})(11)", lambda: used.with_context_args({"k": 2}), [(1, 2), (2, 2)]),
+               ("used.with_context_args({'k': 1.0})(11)", lambda: used.with_context_args({"k": 1.0}), [(1, 1), (2, 1)]),
+               ("used.with_context_args({'k': True})(11)", lambda: used.with_context_args({"k": True}), [(1, 1), (2, 1)]),
+               ("used(11) again", lambda: used, []),
+               ("used.with_context_args({'k': 2})(11) again", lambda: used.with_context_args({"k": 2}), []),
+               ("f2.with_context_args({'k': 1.0})(11) again", lambda: f2.with_context_args({"k": 1.0}), [])]
+        for text, mk, want in seq:
+            got = ran(mk(), 11)
+            if got != want:
+                fails.append(dict(clause="own-context-replaces-entirely", call=text, executed=got, expected=want))
+        for cx in ({"k": 1}, {"k": 2}, {"k": 1.0}, {"k": True}):
+            for g in (f1, f2):
+                if g.with_context_args(cx).memento(11) is None:
+                    fails.append(dict(clause="different-context-stored-separately", call="%s.with_context_args(%r).memento(11)" % (g.__name__, cx), got=None))
         mm = f2.with_context_args(A).with_context_args(B).memento(7)
         ca = None if mm is None else mm.invocation_metadata.fn_reference_with_args.context_args
         if mm is None or dict(ca or {}) != B:
